@@ -4,10 +4,18 @@ import json, os, subprocess
 HERE = os.path.dirname(os.path.dirname(os.path.abspath(__file__)))
 PIP = "/venv/bin/pip install -q --no-index --find-links /opt/veriftools/wheels"
 CHECKS = {
- "C02": ("model-based mutation histories (Hypothesis-drawn, simulated on a text-level reference model) with closure/symmetry/registry invariants evaluated after every step",
-         "6-C02", "Generated histories of add/rm/disconnect/rename over all record types; after every step structural invariants of the object graph (closure, reference/back-reference symmetry with multiplicities, no ghost, ownership, registry) and model-derived back-reference collections are checked. Exploration."),
  "C01": ("round-trip + fixed-point oracle against an independent GFA grammar/canonicaliser over generated documents (Hypothesis)",
          "6-C01", "Generated valid GFA1/GFA2 documents (all record types, all 7 tag datatypes) x vlevel 0-3 x entry points; written records compared as a multiset of canonical values computed by an independent parser, plus literal write fixed point. Exploration: absence of violations on the cases generated, not a proof."),
+ "C02": ("model-based mutation histories (Hypothesis-drawn, simulated on a text-level reference model) with closure/symmetry/registry invariants evaluated after every step",
+         "6-C02", "Generated histories of add/rm/disconnect/rename over all record types; after every step structural invariants of the object graph (closure, reference/back-reference symmetry with multiplicities, no ghost, ownership, registry) and model-derived back-reference collections are checked. Exploration."),
+ "C03": ("differential testing over permutations of generated documents (random, targeted and all n! orders of small documents) plus model oracle",
+         "6-C03", "Each permutation of a generated valid document must give the same full observation as the generation order, leave no placeholder, and match the model's back-references. Exploration; the all-orders part is exhaustive per document (<= 6 lines)."),
+ "C05": ("model-based mutation histories: incremental mutation vs. fresh parse of the edited text (differential), exact cascade from a text-level model",
+         "6-C05", "After every step of a generated history the real lines must equal the text model (exact removal cascade, rename rewriting); at closed points the whole observation must equal that of a Gfa parsed afresh from the model text. Exploration."),
+ "C11": ("exhaustive enumeration of the E-line classification table and L/C/G orientation table + generated graphs against a specification-derived model",
+         "6-C11", "All 196 E-line cells x arrival order x self-edge and all L/C/G orientation pairs are enumerated completely (exhaustive: true for that part); generated graphs add multi-entry collections. Collections and derived queries are compared with a model written from the specification."),
+ "C16": ("generated graphs and model-based histories compared with an independent union-find / counting model",
+         "6-C16", "connected_components, segment_connected_component and the n_* counts are compared with a union-find over the model's dovetails and with counts from the text, on generated documents and after every step of generated histories. Exploration."),
 }
 NOT_APPLICABLE = {
 }
